@@ -184,7 +184,7 @@ def check(tier: str) -> int:
             acts[k] = acts.get(k, 0) + v
         for k, w, rep in r["viol"]:
             run.violation(k, w, rep)
-    need = {"PermuteKeys", "PermuteSubKeys", "Respell", "Requote", "Reflow", "CommuteExpr", "PermuteVars", "Alias", "AliasSub", "CommuteInner", "EmptyParams", "CommuteUnder"}
+    need = {"PermuteKeys", "PermuteSubKeys", "Respell", "Requote", "Reflow", "CommuteExpr", "PermuteVars", "Alias", "AliasSub", "CommuteInner", "EmptyParams", "CommuteUnder", "ExplicitDefault"}
     if not need <= set(acts):
         raise core.MachineryError(f"vacuity: cosmetic actions never exercised: {sorted(need - set(acts))}")
     run.extra["edges_by_action"] = acts
@@ -201,6 +201,11 @@ def check(tier: str) -> int:
         if pf not in seen and len(seeds_txt) < (7 if tier == "quick" else 16):
             seen.add(pf)
             seeds_txt.append(render(e["from"]))
+    # ... and one configuration whose nodes are generated from string specifications (template / rename / delete)
+    gen = next((e["from"] for e in es if any(n["proc"].startswith("template:") for n in e["from"])), None)
+    if gen is None:
+        raise core.MachineryError("vacuity: no configuration with string-specified context processors among the edges")
+    seeds_txt.append(render(gen))
     fresh_process_checks(run, seeds_txt, 2 if tier == "quick" else 4)
     run.traces_validated = run.evaluations
     run.nontrivial = acts.get("PermuteSubKeys", 0) + acts.get("CommuteExpr", 0) + acts.get("Respell", 0)
